@@ -7,7 +7,7 @@
 (* (the harness concretises them, harness/cmd/params/abs.go):              *)
 (*   decimals  unset neg zero tiny half almost1 one gt1 dflt               *)
 (*             (LegacyDec{}, -0.5, 0, 10^-18, 0.5, 1-10^-18, 1, 2, default) *)
-(*   coins     unset nilamt neg zero pos max baddenom nodenom              *)
+(*   coins     unset nilamt neg zero pos max baddenom nodenom other        *)
 (*             (Coin{}, nil amount, -1, 0, the default coin, 2^256-1,       *)
 (*              denom "1bad", denom "")                                    *)
 (*   integers  neg zero one max dflt     (max = MaxInt64 / MaxUint)        *)
@@ -51,7 +51,7 @@ Senders == {"authority", "stranger", "forger"}
 -----------------------------------------------------------------------------
 (* Abstract values *)
 DecV  == {"unset", "neg", "zero", "tiny", "half", "almost1", "one", "gt1", "dflt"}
-CoinV == {"unset", "nilamt", "neg", "zero", "pos", "max", "baddenom", "nodenom"}
+CoinV == {"unset", "nilamt", "neg", "zero", "pos", "max", "baddenom", "nodenom", "other"}
 I64V  == {"neg", "zero", "one", "max", "dflt"}
 U64V  == {"zero", "one", "max", "dflt"}
 
@@ -62,7 +62,7 @@ DecLT1(v) == v \in {"neg", "zero", "tiny", "half", "almost1", "dflt"}
 DecGT1(v) == v = "gt1"
 
 CoinAmtNil(c) == c \in {"unset", "nilamt"}
-CoinAmtPos(c) == c \in {"pos", "max", "baddenom", "nodenom"}
+CoinAmtPos(c) == c \in {"pos", "max", "baddenom", "nodenom", "other"}
 CoinAmtNeg(c) == c = "neg"
 CoinDenomOK(c) == c \notin {"unset", "baddenom", "nodenom"}
 
@@ -232,6 +232,7 @@ CsPoolFee(p) ==
   IF ab = "ovf" THEN Pan("coinswap:pcf:max")
   ELSE IF ab = "denom" THEN Pan("coinswap:pcf:baddenom")            \* denom "1bad" or ""
   ELSE IF ab # "none" THEN Pan("coinswap:tax:" \o p.tax)
+  ELSE IF p.pcf = "other" THEN Unk      \* a valid fee coin of another denom: charged if the sender holds it (not predicted)
   ELSE IF p.pcf = "max" THEN Rej ELSE OkR
 CsOp(p, op, done) ==
   LET pool == "cs_create" \in done \/ "cs_add" \in done IN
@@ -249,6 +250,7 @@ FmCreate(p, cats) ==
        IF ab = "neg" THEN Pan("farm:taxrate:neg")
        ELSE IF ab = "gt1" \/ (ab = "ovf" /\ p.tax = "gt1") THEN Pan("farm:taxrate:gt1")
        ELSE IF ab = "ovf" THEN Pan("farm:fee:max")
+       ELSE IF p.fee = "other" THEN Unk
        ELSE IF p.fee = "max" THEN Rej ELSE OkR
 FmOp(p, op, done) ==
   LET poolA == "fm_create" \in done
@@ -266,10 +268,12 @@ FmOp(p, op, done) ==
 TkAmt(p) == IF p.fee = "zero" THEN "zero" ELSE "pos"
 TkIssue(p) ==
   IF ~CoinDenomOK(p.fee) THEN Pan("token:issuefee:baddenom")        \* calcTokenIssueFee: sdk.NewCoin(denom, ...)
+  ELSE IF p.fee = "other" THEN Rej      \* GetTokenIssueFee: the fee denom is not an issued token
   ELSE IF SplitAbort(TRUE, TkAmt(p), p.tax) # "none" THEN Pan("token:taxrate:" \o p.tax)
   ELSE IF p.fee = "max" THEN Rej ELSE OkR
 TkMint(p) ==
   IF ~CoinDenomOK(p.fee) THEN Pan("token:issuefee:baddenom")
+  ELSE IF p.fee = "other" THEN Rej
   ELSE IF SplitAbort(TRUE, TkAmt(p), p.tax) # "none" THEN Pan("token:taxrate:" \o p.tax)
   ELSE IF p.fee = "max" /\ p.ratio # "zero" THEN Rej ELSE OkR
 (* a three-letter symbol pays the undivided base fee: NewDecFromInt(fee).Quo(1.00) *)
@@ -359,7 +363,7 @@ DoUpdate(s, e) ==
    token additionally requires the base fee denom to be an issued symbol.
    via "module": the import runs on a scratch store, the chain is untouched. *)
 GenesisAccepts(m, p) ==
-  ValidateM(m, p) = "ok" /\ (m = "token" => CoinDenomOK(p.fee))
+  ValidateM(m, p) = "ok" /\ (m = "token" => (CoinDenomOK(p.fee) /\ p.fee # "other"))
 DoGenesis(s, e) ==
   LET m == e.module IN
   IF ~GenesisAccepts(m, e.p) THEN Res("rej", s, "")
